@@ -247,7 +247,10 @@ class CallMixin:
                 return isinstance(v.ty, T.Obj) and v.ty.cls == name
             raise Unsupported(f"isinstance(.., {name})")
         if isinstance(v.ty, T.Opt):
-            raise Unsupported("isinstance on an Optional")
+            outer, v = v, v.val
+            if "NoneType" in names:
+                raise Unsupported("isinstance(.., NoneType)")
+            return T.sv_bool(z3.And(z3.Not(outer.is_none), z3.BoolVal(any(one(n) for n in names))))
         return T.sv_bool(any(one(n) for n in names))
 
     def bi_dict(self, e, p):
